@@ -42,6 +42,7 @@ type Case struct {
 	Prefetch  int64  `json:"prefetch_chunk_size,omitempty"`
 	Cache     string `json:"cache"` // memory | dir | dir-direct
 	Redirect  bool   `json:"redirect,omitempty"`
+	Piece     int    `json:"body_piece,omitempty"`
 	Script    []Pers `json:"script"` // one per fetch request, in arrival order; afterwards default
 	Ops       []Op   `json:"ops"`
 }
@@ -92,6 +93,7 @@ func gen(t *rapid.T) Case {
 		Prefetch: rapid.SampledFrom([]int64{0, 0, cs - 1, 2 * cs, 5 * cs}).Draw(t, "prefetch"),
 		Cache:    rapid.SampledFrom([]string{"memory", "dir", "dir-direct"}).Draw(t, "cache"),
 		Redirect: rapid.IntRange(0, 3).Draw(t, "redirect") == 0,
+		Piece:    rapid.SampledFrom([]int{0, 0, 1, 3, 16}).Draw(t, "piece"),
 	}
 	if c.Prefetch < 0 {
 		c.Prefetch = 0
@@ -263,6 +265,7 @@ func setup(c Case) (*env, remote.Blob, *recCache, func(), error) {
 	e.reg = memreg.New()
 	e.reg.AddBlob(e.dgst.String(), e.blob)
 	e.reg.Decide = e.decide
+	e.reg.Piece = c.Piece
 	rc, cleanup, err := newCache(c.Cache)
 	if err != nil {
 		return nil, nil, nil, nil, err
